@@ -177,4 +177,44 @@ theorem rot345_diag_ne :
   simp only [Matrix.mul_apply, Fin.sum_univ_two, Matrix.transpose_apply, Matrix.diagonal_apply, Matrix.of_apply] at e
   norm_num [rot345, diag12] at e
 
+/-! ### the solver's view under rotation: equivariant after the patch, not before -/
+
+theorem two_fullForm_toM (W : Mat N N K) (F : Mat N D K) :
+    Mat.toM (fun i j => 2 * fullForm W F i j) = (2 : K) • Mat.toM (fullForm W F) := by
+  ext i j
+  simp only [Mat.toM_apply, Matrix.smul_apply, smul_eq_mul]
+
+theorem two_fullForm_rotate_toM (W : Mat N N K) (F : Mat N D K) (R : Mat D D K) :
+    Mat.toM (fun i j => 2 * fullForm W (rotateRows R F) i j)
+      = Mat.toM R * Mat.toM (fun i j => 2 * fullForm W F i j) * (Mat.toM R)ᵀ := by
+  rw [two_fullForm_toM, two_fullForm_toM, fullForm_rotate_toM, Matrix.mul_smul, Matrix.smul_mul]
+
+theorem genSolveLower_npe_fst {W : Mat N N K} (hW : ∀ r c, W r c = W c r) (F : Mat N D K) :
+    (genSolveLower (npeProblem W F)).1 = fun i j => if i = j then 2 * fullForm W F i i else 0 := by
+  funext i j
+  show Mat.lowerView (npeProblem W F).1 i j = _
+  rw [npe_lhs_get hW]
+  exact lowerView_upperOnly _ i j
+
+theorem refute_meta_00 : fullForm refuteW diag12 0 0 = 1 := by
+  rw [fullForm_apply]
+  simp [Fin.sum_univ_two, refuteW, diag12]
+
+theorem refute_meta_11 : fullForm refuteW diag12 1 1 = 4 := by
+  rw [fullForm_apply]
+  simp [Fin.sum_univ_two, refuteW, diag12]
+  norm_num
+
+/-- on the samples `(1,0)`, `(0,2)` with `W = 1` the solver's view of `lhs` is `diag(2, 8)`; after the 3-4-5 rotation
+    it is again diagonal, whereas `R diag(2,8) Rᵀ` has the off-diagonal entry `−72/25` -/
+theorem npe_view_not_equivariant_witness :
+    Mat.toM (genSolveLower (npeProblem refuteW (rotateRows rot345 diag12))).1
+      ≠ Mat.toM rot345 * Mat.toM (genSolveLower (npeProblem refuteW diag12)).1 * (Mat.toM rot345)ᵀ := by
+  intro h
+  have e := congrFun (congrFun h 0) 1
+  rw [genSolveLower_npe_fst refuteW_symm, genSolveLower_npe_fst refuteW_symm] at e
+  simp only [Matrix.mul_apply, Fin.sum_univ_two, Matrix.transpose_apply, Matrix.of_apply,
+    refute_meta_00, refute_meta_11] at e
+  norm_num [rot345] at e
+
 end TapkeeVerif.LinearGraph
